@@ -87,8 +87,14 @@ StrCalls ==
 
 Calls == CASE Which = "list" -> ListCalls [] Which = "oset" -> SetCalls [] Which = "str" -> StrCalls
 
-Edge(c, o) == Emit => PrintT(<<"EDGE", ToJson([from |-> ust, call |-> c, res |-> o.r, to |-> o.st, shape |-> Shape(o.st),
-                                               kres |-> UCall(ust, BuiltFlags, c).r])>>)
+\* emission: one STATE line per distinct state (an "invariant"), one EDGE line per evaluated call; `to` and `kres`
+\* are 0 when they repeat `from` / `res`; alt = 1: the call may also have left the state unchanged (a failed extend)
+Edge(c, o) == Emit => LET k == UCall(ust, BuiltFlags, c).r IN
+                      PrintT(<<"EDGE", ToJson([from |-> ust, call |-> c, res |-> o.r,
+                                               to |-> IF o.st = ust THEN 0 ELSE o.st,
+                                               alt |-> IF c.op \in Piecewise /\ o.r.t = "err" THEN 1 ELSE 0,
+                                               kres |-> IF REq(k, o.r) THEN 0 ELSE k])>>)
+EmitState  == Emit => PrintT(<<"STATE", ToJson([st |-> ust, shape |-> Shape(ust)])>>)
 
 Do(c) == LET o == UCall(ust, CfgFlags, c) IN
          /\ ust' = o.st /\ ures' = o.r /\ ucall' = c
